@@ -309,21 +309,27 @@ def stereo_mol_graph_to_rdmol(
 
 
         elif a_stereo is not None and isinstance(a_stereo, Octahedral):
-            for rd_n in rd_atom.GetNeighbors():
-                mol.RemoveBond(rd_n.GetIdx(), atom_idx)
+            # Do not re-insert the bonds of the atom: that changes the
+            # neighbor order of the bonded atoms and invalidates the chiral
+            # tags already written for them. Search the label for the
+            # existing neighbor order instead, the way the importer reads it.
+            from stereomolgraph.rdmol2graph import RDMol2StereoMolGraph
 
-            for a in (1, 5, 6, 3, 4, 2):
-                a = a_stereo.atoms[a]
-                mol.AddBond(
-                    atom_idx,
-                    map_num_idx_dict[a],
-                )
             rd_atom.SetChiralTag(Chem.ChiralType.CHI_OCTAHEDRAL)
             rd_atom.SetHybridization(Chem.HybridizationType.SP3D2)
-            if a_stereo.parity == 1:
-                rd_atom.SetUnsignedProp("_chiralPermutation", 1)
-            elif a_stereo.parity == -1:
-                rd_atom.SetUnsignedProp("_chiralPermutation", 2)
+            if a_stereo.parity is not None:
+                neighbors = tuple(
+                    [
+                        idx_map_num_dict[nbr.GetIdx()]
+                        for nbr in rd_atom.GetNeighbors()
+                    ]
+                )
+                oct_table = RDMol2StereoMolGraph._oct_atom_order_permutation_dict
+                for label, oct_order in oct_table.items():
+                    oct_atoms = (atom, *[neighbors[i] for i in oct_order])
+                    if Octahedral(oct_atoms, 1) == a_stereo:
+                        rd_atom.SetUnsignedProp("_chiralPermutation", label)
+                        break
 
     for b_stereo in (bs for bs in graph.bond_stereo.values() if bs):
         a1, a2 = b_stereo.atoms[2], b_stereo.atoms[3]
